@@ -96,7 +96,7 @@ def generate(rng, tier, index):
             # RUNNING state is ignored by the server, and an unconditional second toggle would then pause the run for good)
             clients.append(dict(kind="resume", frac=frac, window=3, after_prev=True))
     # a user heartbeat that updates the simulation in two phases (the loop must not let a request see the state in between)
-    return dict(part="B", config=cfg, tmax=tmax, exact=exact, clients=clients, sched=sched, hb2=rng.derive("hb2").chance(0.4))
+    return dict(part="B", config=cfg, tmax=tmax, exact=exact, clients=clients, sched=sched, hb2=(rng.derive("hb2").chance(0.4) and not os.environ.get("VERIF_NOHB2")))
 
 
 def shrink(case, still_fails, viol=None):
@@ -351,6 +351,20 @@ def execute(case, ctx):
             if key == "server:continuation" and status is not None and (status == -2 or status >= 0 or near_end) and synced is not None and unsafe:
                 # snapshot taken while the main thread was inside / after the unprotected synchronise at the end of the run
                 key = "server:continuation:torn-during-final-synchronize"
+            if key == "server:continuation" and exact == 1 and status == -2 and abs(int(R.steps_done) - int(ref.steps_done)) <= 1 \
+                    and abs(R.t - ref.t) <= 1e-12 * abs(tmax) and abs(R.t - tmax) <= 1e-12 * abs(tmax) and abs(ref.t - tmax) <= 1e-12 * abs(tmax):
+                # the snapshot was served at the boundary where integrate() had already entered LAST_STEP (shortened dt, status persisted): continuing it re-enters
+                # integrate() in state RUNNING and may take one more step of ~1e-16 to land on the target (same defect as the C05 / C07 findings)
+                pa, pb = rb.particles_raw(R), rb.particles_raw(ref)
+                close = len(pa) == len(pb)
+                if close:
+                    for q_ in range(0, len(pa), rb.PART.size):
+                        va, vb = struct.unpack_from("<6d", pa, q_), struct.unpack_from("<6d", pb, q_)
+                        if any(abs(x - y) > 1e-12 * (abs(x) + abs(y) + 1e-300) for x, y in zip(va, vb)):
+                            close = False
+                            break
+                if close:
+                    key = "server:continuation:snapshot-served-in-LAST_STEP"
             viol("server", "continuing the served snapshot does not reproduce the run", "client %d (%s, arrived tick %d of ~%d, %s, steps_done %s): final t %r vs %r" % (ci, cfg["integrator"], inf["tick"], H, phase, sd, R.t, ref.t), key=key)
     sig = ("B%x" % st["digest"]) if served else None
     return dict(viols=viols, sig=sig, probes=probes, sim={"ticks": st["ticks"], "switches": st["switches"], "steps": int(sim.steps_done), "simulated_us": st["ticks"]})
